@@ -32,7 +32,7 @@ KMAX = 1e8
 
 def floors(tier):
     return {"gcp_judged": 3000, "outward_on_bound": 800, "breakpoints_crossed_inputs": 800, "c_checked": 1500,
-            "intercepted_calls": 200, "tie_inputs": 600, "inputs_with_theta_exactly_one": 40, "__nontrivial__": 200}
+            "intercepted_calls": 200, "tie_inputs": 600, "inputs_with_theta_exactly_one": 40, "runs_with_objective_redefined": 40, "__nontrivial__": 200}
 
 
 def exhaustive(tier):
@@ -138,7 +138,7 @@ def judge_gcp(out, x, g, lb, ub, mats, B, xcp, c, where, tags):
 # ---------------------------------------------------------------------------
 # synthetic inputs
 # ---------------------------------------------------------------------------
-def make_memory(rng, n, npairs, convex=True, unit_theta=False, scale=1.0):
+def make_memory(rng, n, npairs, convex=True, unit_theta=False, scale=1.0, idle=None):
     """Real LBFGSB_MATRICES built by the package from accepted pairs; returns (mats, B_dense) or None.
     unit_theta: the newest pair lies in a unit-curvature plane (y == s exactly), so theta == 1.0 with a non-empty memory."""
     from collections import deque
@@ -161,6 +161,11 @@ def make_memory(rng, n, npairs, convex=True, unit_theta=False, scale=1.0):
         A = A - 0.3 * np.eye(n)
     if scale != 1.0 and not unit_theta:
         A = A * scale  # objective measured in other units: the Cauchy point does not depend on them
+    if idle is not None and len(idle):
+        # variables the objective does not depend on: their rows of S, Y (hence of W) are exactly zero
+        A = A.copy()
+        A[idle, :] = 0.0
+        A[:, idle] = 0.0
     x = rng.standard_normal(n) if not unit_theta else rng.integers(-8, 9, n) / 4.0
     X, G = deque([x.copy()]), deque([A @ x])
     tries = 0
@@ -174,7 +179,10 @@ def make_memory(rng, n, npairs, convex=True, unit_theta=False, scale=1.0):
                     step[0] = 0.5
             x = x + step
         else:
-            x = x + rng.standard_normal(n) * np.exp(rng.uniform(-2, 0.5))
+            step = rng.standard_normal(n) * np.exp(rng.uniform(-2, 0.5))
+            if idle is not None and len(idle):
+                step[idle] = 0.0
+            x = x + step
         mats = update_lbfgs_matrices(x.copy(), A @ x, X, G, max(npairs, 1), mats, False)
     S = [X[i + 1] - X[i] for i in range(len(X) - 1)]
     Y = [G[i + 1] - G[i] for i in range(len(G) - 1)]
@@ -255,7 +263,16 @@ def cases(tier, seed):
     for i in range(nruns):
         ps = gen.rand_spec(rng, fams, nmax=10, boxes=("mixed", "boxed", "narrow", "lower", "upper", "boxed_degenerate"),
                            starts=("face", "vertex", "outward", "interior"))
-        yield {"kind": "run", "problem": ps, "maxcor": int(rng.integers(1, 8)), "maxiter": int(rng.integers(5, 30))}
+        yield {"kind": "run", "problem": ps, "maxcor": int(rng.integers(1, 8)), "maxiter": int(rng.integers(5, 30)),
+               "eps_SY": float(gen.pick(rng, [2.2e-16, 2.2e-16, 1e-3, 1e-2, 0.1]))}
+    # runs whose objective is redefined on the fly (update_fun_def rewriting the stored gradients; demanding curvature test): the
+    # matrices handed to the Cauchy search are then rebuilt from a filtered history, possibly with the newest pair rejected
+    for i in range(nruns // 2):
+        ps = gen.rand_spec(rng, ("qp", "qp_quartic"), nmax=8, nmin=2, boxes=("mixed", "boxed", "lower", "none"), starts=("interior", "face", "vertex"), condmax=1e3)
+        yield {"kind": "run", "problem": ps, "maxcor": int(rng.integers(1, 7)), "maxiter": int(rng.integers(6, 16)),
+               "switch": {"switch_at": int(rng.integers(1, 7)), "variant": gen.pick(rng, ["reg", "indefinite", "indefinite"]),
+                          "vseed": int(rng.integers(0, 2**31 - 1)), "strength": float(rng.uniform(0.3, 3.0)),
+                          "eps_SY": float(gen.pick(rng, [2.2e-16, 1e-2, 0.1, 0.3]))}}
 
 
 def call_gcp(x, g, lb, ub, mats):
@@ -430,10 +447,16 @@ def run(spec):
                     out.violate("gcp_mutated_its_inputs", "get_cauchy_point modified x or grad in place", source="run")
                 del n0
 
-            cfg = dict(jac="callable", maxcor=spec["maxcor"], maxiter=spec["maxiter"], ftol=0.0, gtol=1e-10, maxfun=3000)
+            cfg = dict(jac="callable", maxcor=spec["maxcor"], maxiter=spec["maxiter"], ftol=0.0, gtol=1e-10, maxfun=3000, eps_SY=spec.get("eps_SY", 2.2e-16))
             with probes.Intercept(M, ["get_cauchy_point"]) as ic:
                 ic.on_event = on_event
-                tr = probes.run_min(P, cfg)
+                if spec.get("switch"):
+                    from . import C13
+
+                    tr = C13.switch_trace(dict(spec, **spec["switch"]))
+                    out.count("runs_with_objective_redefined")
+                else:
+                    tr = probes.run_min(P, cfg)
             for ev in ic.events:
                 if "exc" in ev:
                     out.violate("gcp_raised", f"run: get_cauchy_point raised {ev['exc']!r}", source="run")
